@@ -342,20 +342,24 @@ VSingle ==
         c01 |-> IF can # "" THEN "n/a" ELSE OK(Meaning(sn)),
         c03 |-> IF can # "" THEN "n/a" ELSE OK(NoPhantom(sn))]
 
-\* C04.  snaps: 1 evaluate(x1), 2 assemble(x1), 3 compute(x1), then 4.. compute(re-valued)
+\* C04.  With M = C.nmaps re-valuations, snaps are: 1..M+1 evaluate(x1), evaluate(x2), ... (fresh memory each);
+\* M+2 assemble(x1); M+3 compute(x1); M+4.. compute after each re-valuation.  compute must reproduce what evaluate
+\* yields for the same inputs (the oracle of C04 is the evaluate kernel itself, not Denote - that is C01's business).
 VHistory ==
   IF Faulted THEN [c04 |-> "fault-" \o status \o "-in-" \o Progs[prog].name.name, at |-> phase]
-  ELSE LET e == snaps[1] a == snaps[2] c == snaps[3] IN
-       [c04 |-> IF e.why # "" \/ a.why # "" \/ c.why # "" THEN "unreadable"
+  ELSE LET M == C.nmaps
+           e == snaps[1] a == snaps[M + 2]
+           ev(i) == snaps[i]              \* i \in 1..M+1
+           cp(i) == snaps[M + 2 + i]      \* i \in 1..M+1
+       IN
+       [c04 |-> IF \E i \in 1..Len(snaps) : snaps[i].why # "" THEN "unreadable"
                 ELSE IF a.levels # e.levels THEN "assemble-structure-differs"
-                ELSE IF c.levels # e.levels THEN "compute-changed-structure"
-                ELSE IF c.vals # e.vals THEN "compute-values-differ"
-                ELSE IF Canonical(e) # "" THEN "not-canonical"
-                ELSE IF \E i \in 3..Len(snaps) : snaps[i].why = "" /\ snaps[i].levels = e.levels
-                                                  /\ MeaningC(snaps[i], snaps[i].ct) # "" THEN "recompute-wrong-value"
-                ELSE IF \E i \in 4..Len(snaps) : snaps[i].why # "" \/ snaps[i].levels # e.levels THEN "recompute-changed-structure"
-                ELSE IF \E i \in 3..Len(snaps) : snaps[i].lens # a.lens THEN "compute-reallocated"
-                ELSE IF \E i \in 3..Len(snaps) : snaps[i].leaked > 0 THEN "compute-leaked"
+                ELSE IF cp(1).levels # e.levels THEN "compute-changed-structure"
+                ELSE IF cp(1).vals # e.vals THEN "compute-values-differ"
+                ELSE IF \E i \in 2..(M + 1) : cp(i).levels # a.levels THEN "recompute-changed-structure"
+                ELSE IF \E i \in 2..(M + 1) : ev(i).levels = a.levels /\ cp(i).vals # ev(i).vals THEN "recompute-values-differ"
+                ELSE IF \E i \in 1..(M + 1) : cp(i).lens # a.lens THEN "compute-reallocated"
+                ELSE IF \E i \in 1..(M + 1) : cp(i).leaked > 0 THEN "compute-leaked"
                 ELSE "ok",
         at |-> phase]
 
